@@ -595,6 +595,85 @@ def shard_layouts(shard, acc):
 
 # ---------------------------------------------------------------------------
 
+# ---------------------------------------------------------------------------
+# (c) one schema that extends TWO base schemas living in different directories (every pair of
+#     same / sub / parent), decoys with the same file names in the other base's directory
+
+def shard_extends_multi(shard, acc):
+    import ZConfig
+    from urllib.parse import quote
+    from urllib.request import pathname2url
+    root, idx, name = shard
+    base = tempfile.mkdtemp(prefix="m%d-" % idx, dir=root)
+    old = os.getcwd()
+    try:
+        top_dir = os.path.join(base, "p", name + "d")
+        dirs = {"same": top_dir, "sub": os.path.join(top_dir, name + "s"), "parent": os.path.join(base, "p")}
+        rel = {"same": "", "sub": quote(name + "s") + "/", "parent": "../"}
+        outside = os.path.join(base, "elsewhere")
+        for d in list(dirs.values()) + [outside]:
+            os.makedirs(d, exist_ok=True)
+        f1, f2 = name + "1.xml", name + "2.xml"
+
+        def base_doc(key, tag):
+            return '<schema>\n<key name="%s" default="%s"/>\n</schema>\n' % (key, tag)
+        for h1 in HOPS:
+            for h2 in HOPS:
+                if h1 == h2:
+                    continue
+                # real targets and decoys (same file name, other directory, other content)
+                for d in dirs.values():
+                    for fn, key in ((f1, "kb1"), (f2, "kb2")):
+                        with open(os.path.join(d, fn), "w", encoding="utf-8") as f:
+                            f.write(base_doc(key, "DECOY"))
+                with open(os.path.join(dirs[h1], f1), "w", encoding="utf-8") as f:
+                    f.write(base_doc("kb1", "real-1"))
+                with open(os.path.join(dirs[h2], f2), "w", encoding="utf-8") as f:
+                    f.write(base_doc("kb2", "real-2"))
+                top = os.path.join(top_dir, name + "top.xml")
+                with open(top, "w", encoding="utf-8") as f:
+                    f.write('<schema extends="%s %s">\n<key name="ktop" default="top"/>\n</schema>\n'
+                            % (rel[h1] + quote(f1), rel[h2] + quote(f2)))
+                for cwdk, cwd in (("root", base), ("sub", top_dir), ("outside", outside)):
+                    os.chdir(cwd)
+                    results = {}
+                    for way in WAYS:
+                        try:
+                            if way == "abspath":
+                                sch = ZConfig.loadSchema(top)
+                            elif way == "relpath":
+                                sch = ZConfig.loadSchema(os.path.relpath(top, cwd))
+                            elif way == "fileurl":
+                                sch = ZConfig.loadSchema("file://" + pathname2url(top))
+                            else:
+                                nm = top if way == "fileobj-abs" else os.path.relpath(top, cwd)
+                                with open(nm, encoding="utf-8") as fh:
+                                    sch = ZConfig.loadSchemaFile(fh)
+                            results[way] = tuple((k, sch.getinfo(k).getdefault().value) for k in ("kb1", "kb2", "ktop"))
+                        except ZConfig.ConfigurationError as e:
+                            results[way] = ("error", type(e).__name__, str(e).replace(base, "<scratch>")[:120])
+                        except Exception as e:
+                            results[way] = ("internal", core.exc_desc(e))
+                        acc.transitions += 1
+                    acc.ev()
+                    acc.extra["c_states"] += 1
+                    if any(ord(ch) > 127 or ch in " &;[]+~" for ch in name):
+                        acc.nt()
+                    want = (("kb1", "real-1"), ("kb2", "real-2"), ("ktop", "top"))
+                    acc.cls("c:extends-two-bases:" + ("ok" if all(r == want for r in results.values()) else "differs"))
+                    acc.clause("c:two-bases-resolve-against-the-extending-schema")
+                    if any(r != want for r in results.values()):
+                        acc.violation("extends-entry-resolved-against-wrong-base",
+                                      {"name": name, "base1": h1, "base2": h2, "cwd": cwdk},
+                                      {w: list(r) for w, r in results.items()}, [list(x) for x in want],
+                                      tags={"kind": "extends-two-bases", "base1": h1, "base2": h2})
+                    acc.sample(lambda: {"part": "c", "name": name, "base1": h1, "base2": h2, "cwd": cwdk})
+    finally:
+        os.chdir(old)
+        shutil.rmtree(base, ignore_errors=True)
+    return acc
+
+
 def run(tier):
     n = 6 if tier == "quick" else 7
     m = 4 if tier == "quick" else 5          # 'file:' + every string of length <= m
@@ -610,7 +689,9 @@ def run(tier):
              "used as directory name and file stem, %d chain layouts top->mid->leaf (depth of top 0..3, each "
              "hop same/sub/parent, all depths 0..3), cwd in %r; per state the ways %r of naming the top "
              "resource, for the good tree, a failing leaf, a '#frag' reference and a '#frag' top name; "
-             "non-trivial = name with a character that must be percent-encoded.  states = (kind, layout, "
+             "non-trivial = name with a character that must be percent-encoded.  (c) one schema extending TWO base "
+             "schemas in different directories (all 6 ordered pairs of same / sub / parent) with decoys of the same "
+             "file names elsewhere, every 1-character name, 3 working directories, the same ways of naming the top.  states = (kind, layout, "
              "name, cwd) tuples, transitions = loads through the public API."
              % (n, "".join(ALPHABET), m, SCHEME_CASES, BASES, KINDS, len(nm), namelen,
                 "".join(NAME_ALPHABET), len(lay), CWDS, WAYS),
@@ -641,6 +722,8 @@ def run(tier):
         else:
             bshards = [(root, i, name, KINDS) for i, name in enumerate(nm)]
         core.pmap(shard_layouts, bshards, run.acc)
+        cnames = names(1)
+        core.pmap(shard_extends_multi, [(root, i, nme) for i, nme in enumerate(cnames)], run.acc)
     finally:
         shutil.rmtree(root, ignore_errors=True)
     acc = run.acc
